@@ -89,6 +89,16 @@ def physical(q: qutip.Qobj, who: str, bad, trace_tol: float = TOL_TRACE):
         bad(f"{who}:not-positive", f"smallest eigenvalue of the density matrix is {me!r}")
 
 
+def expected_last_config(rus, eta) -> list[bool]:
+    """the bad-atom configuration the Monte-Carlo loop over state-preparation
+    errors should leave loaded: the last entry of Counter(...).most_common()
+    (stable sort by decreasing count of the drawn configurations)"""
+    from collections import Counter as _C
+
+    cfgs = _C("".join("1" if u < eta else "0" for u in us) for us in rus).most_common()
+    return [ch == "1" for ch in cfgs[-1][0]]
+
+
 def single_pulse(case):
     ps = [o for o in case["ops"] if o["op"] == "pulse"]
     return ps[0] if len(ps) == 1 else None
@@ -181,6 +191,16 @@ def run_emu(case):
     meas = I.expected_meas_basis(case)
     info["dim"] = len(eig)
     info["meas"] = meas
+
+    # ---- a user-supplied initial state is normalised by the emulator
+    if case.get("init"):
+        v = I.init_vector(case)
+        got = emu.initial_state.full().ravel()
+        nrm = float(np.linalg.norm(got))
+        if abs(nrm - 1) > 1e-12:
+            bad("initial-state-not-normalised", f"set_initial_state({case['init'].get('form')}) left a state of norm {nrm!r}")
+        elif float(np.abs(got - v / np.linalg.norm(v)).max()) > 1e-12:
+            bad("initial-state-wrong", "the initial state is not the normalised user state")
 
     # ---- evaluation times of the legacy emulator (bit-exact model)
     ev = case.get("eval") or {"t": "Full"}
@@ -298,6 +318,29 @@ def run_emu(case):
                 bad("register-order", f"pi pulses on atoms {case['subset']} must give bitstring {want}; distribution {got}")
     else:
         # NoisyResults: distributions of counts
+        if case.get("family") == "noisyidle":
+            # negligible noise: the counts follow the analytic Rabi population
+            p = single_pulse(case)
+            nzc = case.get("noise") or {}
+            shots = nzc.get("runs", 15) * nzc.get("samples_per_run", 5)
+            ref = math.sin(p["amp"] * p["dur"] * 1e-3 / 2) ** 2
+            got1 = float(res[-1].sampling_dist.get("1", 0.0))
+            tol = 6 * math.sqrt(max(ref * (1 - ref), 0.0) / shots) + 0.02
+            info["noisy_path_p1"] = (got1, ref, tol)
+            all_bad = False
+            if nzc.get("state_prep_error"):
+                # the draws of _noisy_runs, reproduced from the seed
+                I.seeded(case.get("seed", 0))
+                rus = [np.random.uniform(size=n) for _ in range(nzc.get("runs", 15))]
+                want = expected_last_config(rus, nzc["state_prep_error"])
+                have = [bool(emu._hamiltonian._bad_atoms[q]) for q in I.qids_of(case)]
+                if have != want:
+                    all_bad = all(have)
+                    bad("spam-prep:all-atoms-bad" if all_bad else "spam-prep:loaded-config-differs",
+                        f"the Monte-Carlo loop drew the configuration {want} last but left {have} loaded")
+            if not all_bad and abs(got1 - ref) > tol:
+                bad("idle-then-pulse:noisy-path",
+                    f"on the Monte-Carlo path P(1) = {got1:.3f} after an idle period and a pulse of area {p['amp'] * p['dur'] * 1e-3:.4g}; analytic {ref:.3f} (tolerance {tol:.3f}, {shots} shots)")
         for r in res:
             got = {k: float(v) for k, v in r.sampling_dist.items()}
             if abs(sum(got.values()) - 1) > TOL_DIST:
@@ -696,8 +739,93 @@ def run_times(case):
     return dict(info=info, checks=checks), viols
 
 
+# ------------------------------------------------------------------ configuration histories
+def run_hist(case):
+    viols: list[Violation] = []
+    checks: list[dict] = []
+
+    def bad(sig, what, detail=None):
+        viols.append(Violation(sig, what, case, detail))
+
+    from pulser_simulation import QutipEmulator, SimConfig
+
+    n = case["n"]
+    seq = I.build_sequence(case)
+    qids = I.qids_of(case)
+    info = dict(kind="hist", nontrivial=True, steps=[s["name"] for s in case["steps"]], T=seq.get_duration())
+    ops, observed = [], []
+    emu = None
+
+    def bad_map():
+        return [bool(emu._hamiltonian._bad_atoms[q]) for q in qids]
+
+    try:
+        for i, st in enumerate(case["steps"]):
+            kw = dict(st["cfg"])
+            kw["noise"] = tuple(kw["noise"])
+            cfg = SimConfig(**kw)
+            sd = case["seed"] + 11 * i
+            I.seeded(sd)
+            us = np.random.uniform(size=n)
+            I.seeded(sd)
+            if emu is None:
+                emu = QutipEmulator.from_sequence(seq, config=cfg, evaluation_times="Minimal")
+            elif st["how"] == "add":
+                emu.add_config(cfg)
+            else:
+                emu.set_config(cfg)
+            nm = emu._hamiltonian.config
+            ops.append(("set", "SPAM" in nm.noise_types, float(nm.state_prep_error), [float(u) for u in us]))
+            observed.append(bad_map())
+            if st["run"]:
+                runs = int(emu.config.runs)
+                I.seeded(sd + 1)
+                rus = [[float(u) for u in np.random.uniform(size=n)] for _ in range(runs)]
+                I.seeded(sd + 1)
+                emu.run()
+                ops.append(("run", rus))
+                observed.append(bad_map())
+                nm_r = emu._hamiltonian.config
+                if "SPAM" in nm_r.noise_types and nm_r.state_prep_error > 0:
+                    want = expected_last_config(rus, float(nm_r.state_prep_error))
+                    if observed[-1] != want:
+                        sig = "spam-prep:all-atoms-bad" if all(observed[-1]) else "spam-prep:loaded-config-differs"
+                        bad(sig, f"the Monte-Carlo loop drew the configuration {want} last but left {observed[-1]} loaded")
+    except Exception as e:  # noqa: BLE001
+        info["history_error"] = f"{type(e).__name__}: {e}"[:200]
+        bad(f"config-history-raises:{type(e).__name__}", f"a configuration history failed at step {len(ops)}: {e}")
+    if ops:
+        checks.append(dict(c="hist", n=n, ops=ops, observed=observed))
+    # ---- the emulator behaves as a fresh one with its current configuration
+    if emu is not None and all(v.signature == "spam-prep:all-atoms-bad" for v in viols):
+        nm = emu._hamiltonian.config
+        prep = "SPAM" in nm.noise_types and nm.state_prep_error > 0
+        info["final_prep"] = bool(prep)
+        if not prep:
+            if any(observed[-1]):
+                bad("config-history:stale-bad-atoms",
+                    f"badly prepared atoms {observed[-1]} under a configuration without state-preparation errors")
+            try:
+                I.seeded(case["seed"])
+                r_hist = emu.run()
+                fresh = QutipEmulator.from_sequence(seq, config=emu.config, evaluation_times="Minimal")
+                I.seeded(case["seed"])
+                r_fresh = fresh.run()
+                dd = float(np.abs(I.qobj_dm(r_hist.states[-1]) - I.qobj_dm(r_fresh.states[-1])).max())
+                info["hist_vs_fresh"] = dd
+                if dd > 1e-9:
+                    bad("config-history:differs-from-fresh",
+                        f"after the history {info['steps']} the emulator's final state differs by {dd:.3g} from a fresh emulator with the same configuration")
+                physical(r_hist.states[-1], "legacy", bad)
+            except Exception as e:  # noqa: BLE001
+                bad(f"config-history-raises:{type(e).__name__}", f"run after the history failed: {e}")
+    return dict(info=info, checks=checks), viols
+
+
 def run_case(case):
     k = case.get("kind")
+    if k == "hist":
+        return run_hist(case)
     if k == "emu":
         return run_emu(case)
     if k == "weights":
